@@ -36,13 +36,28 @@ EXPLANATION = (
     "the cap the node was built from on every path, and every get_readonly_uri() (the string packed in clear into the "
     "parent directory's read-only slot and served by t=json / t=readonly-uri) is <cap>.get_readonly().to_string(), a "
     "delegation, None, or the node's own cap only in a class whose is_readonly() is constantly True (the cap classes' "
-    "own get_readonly()/is_readonly() are C16's subject). "
-    "Undecided: behaviour with asserts disabled (-O), the storage servers' own write-enabler check, content of "
+    "own get_readonly()/is_readonly() are C16's subject); "
+    "(9, value provenance through all reaching definitions, container stores and - by descent - own methods and package-local "
+    "helpers) the node NodeMaker.create_from_cap / _create_from_single_cap and the gateway entry point "
+    "_Client.create_node_from_uri answer with is constructed from the given cap on that call, or comes out of state that "
+    "outlives the call (attribute of the maker that is not a collaborator bound once from a constructor parameter, "
+    "module- or class-level object, memoising decorator) only through a lookup whose key keeps the cap apart from the other "
+    "caps of the same object: the full cap string (`writecap or readcap`, or both slots) / the parsed cap object, "
+    "constant-prefixed, tupled, converted or hashed one-to-one, or the cap class / is_readonly() / writekey - never the "
+    "storage index, the verify cap or the read-only form, which write, read and verify cap share; every other store into "
+    "such a memo (in the class, through a filing helper, from outside the class) is keyed likewise; the entry point hands "
+    "its two slots to the nodemaker in order; what DirectoryNode._unpack_contents and the child factories hand out was "
+    "made on that invocation or remembered under a key naming the node's writeability (C18.11, shared). "
+    "Undecided: memos hidden inside collaborators handed to the maker at construction (storage broker, uploader, "
+    "blacklist: the blacklist answer is data about a storage index, not a node) or inside the node classes' constructors, "
+    "caches in web handlers above create_node_from_uri, that a key of (slot, is_readonly()) or (slot, writekey) also keeps "
+    "read and verify caps apart (they are told apart by the cap class; no verify-cap node of a mutable slot exists), behaviour with asserts disabled (-O), the storage servers' own write-enabler check, content of "
     "HTML pages, whether an *unknown* (future-format) cap string handed in by a client is a write cap (UnknownNode keeps "
     "it in the slot it was given in; the prefix policy of UnknownNode.__init__ is value-level and C18's subject), "
     "creation of new unlinked objects before a refused link (PUT ?format=SDMF below a read-only directory creates an "
     "orphan mutable file: needs no authority, modifies nothing that exists), lease renewal by t=check&add-lease.")
-TECHNIQUE = "static analysis: CFG must-precede gates, who-may-call sweeps and value provenance of emitted caps"
+TECHNIQUE = ("static analysis: CFG must-precede gates, who-may-call sweeps, value provenance of emitted caps and "
+             "interprocedural provenance of the node objects the node factory answers with")
 
 MFN = "mutable.filenode:MutableFileNode"
 MFV = "mutable.filenode:MutableFileVersion"
@@ -680,4 +695,423 @@ def run(ctx: Context):   # noqa: F811
     # is non-None only for a cap shown to be writeable.  C18.2: the bytes of a directory readable with the read cap
     # carry a child's write authority only inside _encrypt_rw_uri (the clear read-only slot is get_readonly_uri(),
     # whose implementations C41.8 decides), so a listing made through a read cap cannot contain a child write cap.
-    ctx.include("C18", ["C18.5", "C18.6", "C18.2"], "C41.7")
+    # C18.11: what DirectoryNode._unpack_contents (and the two child factories) hand out was made on that invocation
+    # for that node, or remembered under a key that names the node's writeability (added after seeded change C41-H).
+    ctx.include("C18", ["C18.5", "C18.6", "C18.2", "C18.11"], "C41.7")
+    _rule_node_for_this_cap(ctx)
+
+
+# -- C41.9: the node answered for a cap was made from that cap (added after seeded change C41-G) ----------------
+# C18.5 decides what the existing cache `_node_cache` is keyed by.  That is worth nothing when create_from_cap (or
+# the constructors below it) can answer with a node that came from somewhere else: a second index of live nodes, a
+# memo in a helper, a memoising decorator.  Every gate of this property asks the *node* whether it is read-only, so a
+# request carrying a read-only / verify cap must never be handed the node object somebody made from the write cap.
+from . import C18 as _C18     # noqa: E402  (C41 adopts from C18; C18 never imports C41)
+
+NM = "nodemaker:NodeMaker"
+# <x>.m() tells x's full cap / writeability when x does
+_CAP_KEEPING_METHODS = {"to_string", "encode", "decode", "digest", "hexdigest", "get_filenode_cap", "get_uri",
+                        "get_cap", "is_readonly", "get_writekey", "init_from_cap"}
+_CAP_KEEPING_ATTRS = {"writekey", "__class__"}
+# f(.., x, ..) is one-to-one in x (parsers, conversions, collision-resistant hashes)
+_CAP_KEEPING_FUNCS = {"from_string", "bytes", "str", "repr", "tuple", "type", "ensure_binary", "ensure_str",
+                      "ensure_text", "to_bytes", "to_str", "tagged_hash", "tagged_pair_hash", "sha256", "sha256d",
+                      "b2a", "join"}
+_MEMO_DECORATORS = {"lru_cache", "cache", "cached", "memoize", "memoized", "cachedmethod", "cached_property"}
+_NEUTRAL_DECORATORS = {"staticmethod", "classmethod", "implementer", "inlineCallbacks", "wraps"}
+_STORE_CALLS = ("setdefault", "__setitem__", "set_with_aux", "update")
+
+
+def _self_attr_uses(ci_list, attr):
+    """(function, ast node, kind) for every touch of self.<attr> in the methods of the classes (nested defs and
+    lambdas included); kind in 'bind' (self.attr = ..), 'fill' (self.attr[k] = .. / del / mutator call), 'read'"""
+    out = []
+    seen = set()
+    for ci in ci_list:
+        for m in ci.methods.values():
+            for f in _all_funcs_of(m):
+                if f.qual in seen:
+                    continue
+                seen.add(f.qual)
+                for x in func_own_nodes(f, into_lambda=True):
+                    if isinstance(x, ast.Attribute) and x.attr == attr and isinstance(x.value, ast.Name) \
+                            and x.value.id == "self" and isinstance(x.ctx, (ast.Store, ast.Del)):
+                        out.append((f, x, "bind"))
+                    elif isinstance(x, ast.Subscript) and attr_path(x.value) == "self." + attr \
+                            and isinstance(x.ctx, (ast.Store, ast.Del)):
+                        out.append((f, x, "fill"))
+                    elif isinstance(x, ast.Call) and isinstance(x.func, ast.Attribute) \
+                            and attr_path(x.func.value) == "self." + attr and x.func.attr in _C18.Provenance.MUTATORS:
+                        out.append((f, x, "fill"))
+    return out
+
+
+class _CapProvenance(_C18.Provenance):
+    """Provenance (see C18) of the node objects NodeMaker answers with, where the *context* is the cap of this call:
+    a key `depends on the context` only if it keeps the cap apart from every other cap of the same object - the cap
+    string / cap object itself, constant-prefixed or tupled, parsed, converted or hashed one-to-one, or the fields that
+    tell the authority (cap class, is_readonly(), writekey).  The storage index, the verify cap, the read-only form
+    do not: write, read and verify cap of one slot share them."""
+
+    def __init__(self, idx, what, is_factory=None):
+        super().__init__(idx, is_factory or (lambda env, c: False), what)
+        self._config = {}
+        self._sum_active = []
+        self.built = []
+
+    # -- does the value of e determine the cap of this call?
+    # Facts about a value: "BIG" it determines the cap the node is made from; "W" / "R" it determines the string given
+    # in the write / the read slot (entry points that take the two slots: the cap is `w or r`, so W and R together
+    # determine it, either alone does not - `r or w` files the node made for (w, r) where (None, r) finds it).
+    _ALL = frozenset(["BIG", "W", "R"])
+    _NONE = frozenset()
+
+    def ctxdep(self, env, e):
+        return self.complete(self._facts(env, e, frozenset(), True))
+
+    @staticmethod
+    def complete(facts):
+        return "BIG" in facts or ("W" in facts and "R" in facts)
+
+    def flag_facts(self, env, name):
+        k = getattr(env, "kinds", {}).get(name, "BIG")
+        return frozenset([k])
+
+    def _facts(self, env, e, visiting, cyc):
+        """cyc: whether a name that is defined in terms of itself (key += suffix) is granted everything on the way
+        round: every definition of a name must keep the cap under that grant, and some definition without it"""
+        F = lambda x: self._facts(env, x, visiting, cyc)      # noqa: E731
+
+        def union(xs):
+            out = self._NONE
+            for x in xs:
+                out = out | F(x)
+            return out
+
+        def inter(xs):
+            out = None
+            for x in xs:
+                out = F(x) if out is None else out & F(x)
+            return out or self._NONE
+        if e is None or isinstance(e, ast.Constant):
+            return self._NONE
+        if isinstance(e, ast.Name):
+            if e.id in env.flags:
+                return self.flag_facts(env, e.id)
+            if e.id in env.fn.params or e.id not in env.locals:
+                return self._NONE
+            if e.id in visiting:
+                return self._ALL if cyc else self._NONE
+            ds = env.defs.get(e.id, [])
+            v2 = visiting | {e.id}
+            out = None
+            for d in ds:
+                fd = self._facts(env, d, v2, cyc)
+                out = fd if out is None else out & fd
+            out = out or self._NONE
+            if cyc and out:
+                base = self._NONE
+                for d in ds:
+                    base = base | self._facts(env, d, v2, False)
+                out = out & base
+            return out
+        if isinstance(e, ast.Attribute):
+            return F(e.value) if e.attr in _CAP_KEEPING_ATTRS else self._NONE
+        if isinstance(e, (ast.Tuple, ast.List)):
+            return union(e.elts)
+        if isinstance(e, ast.JoinedStr):
+            return union(e.values)
+        if isinstance(e, (ast.FormattedValue, ast.NamedExpr, ast.Starred)):
+            return F(e.value)
+        if isinstance(e, ast.BinOp) and isinstance(e.op, (ast.Add, ast.Mod)):
+            return union([e.left, e.right])
+        if isinstance(e, (ast.BoolOp, ast.IfExp)):
+            big = getattr(env, "big_ok", ())
+            if big and N(env.fn).norm(e) in big:
+                return frozenset(["BIG"])
+            return inter(e.values if isinstance(e, ast.BoolOp) else [e.body, e.orelse])
+        if isinstance(e, ast.Call):
+            f = e.func
+            args = list(e.args) + [k.value for k in e.keywords]
+            if isinstance(f, ast.Attribute):
+                p = attr_path(f.value)
+                if p == "self" and "self" in env.fn.params and env.fn.cls is not None:
+                    g = env.fn.cls.lookup(f.attr)
+                    return self.summary_facts(env, e, g, True, cyc) if g is not None else self._NONE
+                root = p.split(".", 1)[0] if p else None
+                if root is not None and root not in env.locals and root not in env.comp:
+                    if f.attr in _CAP_KEEPING_FUNCS:
+                        return union(args)
+                    g = self.callee(env, e)
+                    if g is not None:
+                        return self.summary_facts(env, e, g, False, cyc)
+                    return union(args) if isinstance(self.idx.resolve_expr(env.fn.module, f), ClassInfo) else self._NONE
+                if f.attr == "join" and isinstance(f.value, ast.Constant):
+                    return union(args)
+                if f.attr in _CAP_KEEPING_METHODS:
+                    return F(f.value) | (union(args) if f.attr == "init_from_cap" else self._NONE)
+                return self._NONE
+            if isinstance(f, ast.Name) and f.id not in env.locals:
+                if f.id in _CAP_KEEPING_FUNCS:
+                    return union(args)
+                g = self.callee(env, e)
+                if g is not None:
+                    return self.summary_facts(env, e, g, False, cyc)
+                return union(args) if isinstance(self.idx.resolve_expr(env.fn.module, f), ClassInfo) else self._NONE
+        return self._NONE
+
+    def summary_facts(self, env, c, g, method, cyc):
+        """what every value the helper returns keeps, given which of its arguments determine the cap"""
+        if env.depth >= 6 or isinstance(g.node, ast.Lambda) or g.qual in self._sum_active:
+            return self._NONE
+        b = self.bind(g, c, method)
+        if b is None:
+            return self._NONE
+        flags = {q for (q, x) in b.items() if self.complete(self._facts(env, x, frozenset(), cyc))}
+        if not flags:
+            return self._NONE
+        self._sum_active.append(g.qual)
+        try:
+            sub = self.env(g, (), flags, env.depth + 1, {})
+            rets = [n for n in sub.cfg.find(is_return) if n.id in sub.live]
+            out = None
+            for n in rets:
+                fr = self._facts(sub, n.ast.value, frozenset(), cyc) if n.ast.value is not None else self._NONE
+                out = fr if out is None else out & fr
+            return out or self._NONE
+        finally:
+            self._sum_active.pop()
+
+    def top_env(self, f, flags, kinds=None):
+        """activation of an analysed entry point; kinds: parameter -> 'W' / 'R' for the two cap slots"""
+        env = self.env(f, (), flags)
+        if kinds:
+            env.kinds = dict(kinds)
+            w = [q for (q, k) in kinds.items() if k == "W"]
+            rd = [q for (q, k) in kinds.items() if k == "R"]
+            if len(w) == 1 and len(rd) == 1:
+                env.big_ok = {norm_src(t % {"w": w[0], "r": rd[0]}) for t in (
+                    "%(w)s or %(r)s", "%(w)s if %(w)s else %(r)s", "%(r)s if not %(w)s else %(w)s",
+                    "%(w)s if %(w)s is not None else %(r)s", "%(r)s if %(w)s is None else %(w)s")}
+        return env
+
+    # -- what outlives the call
+    def is_config(self, ci, attr):
+        """self.<attr> is bound only in a constructor, to a constructor parameter or a constant, and never filled:
+        a collaborator handed in at construction, not a memory of earlier calls."""
+        key = (ci.qual, attr)
+        if key not in self._config:
+            fam = [ci] + [c for c in ci.mro() if c is not ci] + self.idx.subclasses(ci)
+            uses = _self_attr_uses(fam, attr)
+            ok = bool(uses) and all(k == "bind" for (_f, _x, k) in uses)
+            n_ok = 0
+            if ok:
+                for (f, x, _k) in uses:
+                    if f.name != "__init__" or f.parent is not None:
+                        ok = False
+                        break
+                    for st in func_own_nodes(f):
+                        if isinstance(st, ast.Assign) and any(t is x for t in st.targets):
+                            v = st.value
+                            if (isinstance(v, ast.Name) and v.id in f.params) or isinstance(v, ast.Constant):
+                                n_ok += 1
+                ok = ok and n_ok == len(uses)
+            self._config[key] = ok
+        return self._config[key]
+
+    def state_of(self, env, e):
+        p = attr_path(e)
+        if p is not None and "." in p:
+            root, attr = p.split(".")[0], p.split(".")[1]
+            if root == "self" and env.fn.cls is not None and "self" in env.locals and self.is_config(env.fn.cls, attr):
+                return None
+            if root not in env.locals and root not in env.comp:
+                ci = self.idx.resolve_expr(env.fn.module, ast.Name(id=root, ctx=ast.Load()))
+                if isinstance(ci, ClassInfo) and ci.lookup(attr) is None:
+                    vals = ci.lookup_attr(attr) or []
+                    if not isinstance(vals, (list, tuple)):
+                        vals = [vals]
+                    if any(not isinstance(v, ast.Constant) for v in vals):
+                        return "%s (class-level state, shared by every instance)" % p
+        return super().state_of(env, e)
+
+    # -- the walk: remember which constructors make the answer, look at memoising decorators
+    def call(self, env, n, c):
+        if isinstance(c.func, (ast.Name, ast.Attribute)) and attr_path(c.func) is not None \
+                and attr_path(c.func).split(".", 1)[0] not in env.locals:
+            tgt = self.idx.resolve_expr(env.fn.module, c.func)
+            if isinstance(tgt, ClassInfo):
+                self.built.append((env.fn, c, tgt))
+        return super().call(env, n, c)
+
+    def decorators(self, g):
+        return [call_tail(d) if isinstance(d, ast.Call) else (attr_path(d) or "?").rsplit(".", 1)[-1]
+                for d in getattr(g.node, "decorator_list", [])]
+
+    def descend(self, env, n, c, g, method):
+        decs = self.decorators(g)
+        for d in decs:
+            if d in _MEMO_DECORATORS:
+                b = self.bind(g, c, method)
+                if b is None or not any(self.ctxdep(env, x) for x in b.values()):
+                    self.lose(env, c, "%s answers with what the memoising decorator @%s of %s remembers for the arguments "
+                              "(%s), none of which includes %s" % (short(env.fn), d, short(g),
+                                                                   ", ".join(src(env.fn, a) for a in c.args), self.what))
+                    return
+            elif d not in _NEUTRAL_DECORATORS:
+                raise AnalysisError("%s is wrapped by @%s: cannot tell where the value it returns comes from" % (g.qual, d))
+        return super().descend(env, n, c, g, method)
+
+
+def _rule_node_for_this_cap(ctx: Context):
+    idx = ctx.idx
+    with ctx.rule("C41.9", "R3/R7", "NodeMaker.create_from_cap / _create_from_single_cap (and, by descent, the helpers "
+                  "they call): every node answered is constructed from the given cap on this call, or comes out of "
+                  "state that outlives the call only through a lookup whose key keeps the cap apart from the other "
+                  "caps of the same object (full cap string / cap object / cap class / is_readonly() / writekey - "
+                  "not storage index, verify cap or read-only form); whoever fills such a memo keys it likewise",
+                  expected=8) as r:
+        ci = idx.cls(NM)
+        top = idx.func(NM + ".create_from_cap")
+        single = idx.func(NM + "._create_from_single_cap")
+        ps = first_positional_params(top)
+        if ps[:2] != ["writecap", "readcap"]:
+            raise AnchorVanished("create_from_cap(writecap, readcap, ..) signature changed")
+        p1 = first_positional_params(single)
+        if len(p1) != 1:
+            raise AnchorVanished("_create_from_single_cap(cap) signature changed")
+        # the gateway's own entry point (web handlers, SFTP): a delegation to the nodemaker, caps handed on in order
+        entry = idx.func("client:_Client.create_node_from_uri")
+        pe = first_positional_params(entry)
+        if len(pe) < 2:
+            raise AnchorVanished("create_node_from_uri(write_uri, read_uri, ..) signature changed")
+
+        def to_nodemaker(env, c):
+            return env.fn is entry and call_tail(c) == "create_from_cap" and isinstance(c.func, ast.Attribute)
+        jobs = [(top, set(ps[:2]), "the cap string given (%s)" % " or ".join(ps[:2]), None),
+                (single, set(p1), "the cap given (%s)" % p1[0], None),
+                (entry, set(pe[:2]), "the cap string given (%s)" % " or ".join(pe[:2]), to_nodemaker)]
+        top_flags = {f.qual: fl for (f, fl, _w, _fac) in jobs}
+        top_kinds = {top.qual: {ps[0]: "W", ps[1]: "R"}, entry.qual: {pe[0]: "W", pe[1]: "R"}}
+        memos = {}          # attribute of self -> [(function, reading expression)]
+        for (f, flags, what, fac) in jobs:
+            pv = _CapProvenance(idx, what, fac)
+            for d in pv.decorators(f):
+                if d not in _NEUTRAL_DECORATORS | _MEMO_DECORATORS:     # a memo over all arguments includes the cap
+                    raise AnalysisError("%s is wrapped by @%s" % (f.qual, d))
+            rets = pv.returns(pv.top_env(f, flags, top_kinds.get(f.qual)))
+            if not rets:
+                raise AnchorVanished("%s returns nothing" % short(f))
+            made = [(g, x) for (g, x, k) in pv.leaves if k == "factory"]
+            if not pv.built and not made and not pv.lost:
+                raise AnchorVanished("no value returned by %s is constructed on the call" % short(f))
+            for (g, c) in made:
+                r.site(g, c, "delegates to the nodemaker")
+                a0, a1 = arg(c, 0, ps[0]), arg(c, 1, ps[1])
+                r.require(attr_path(a0) == pe[0] and attr_path(a1) == pe[1], g, g.loc(c),
+                          "%s asks the nodemaker for (%s, %s) instead of the caps it was given (%s, %s)" % (
+                              short(g), src(g, a0) if a0 is not None else "-", src(g, a1) if a1 is not None else "-",
+                              pe[0], pe[1]))
+            for n in rets:
+                r.site(f, n.ast, "return")
+            done = set()
+            for (g, c, tgt) in pv.built:
+                if id(c) not in done:
+                    done.add(id(c))
+                    r.site(g, c, "constructs %s" % tgt.name)
+            for (g, x, k) in pv.leaves:
+                if k == "memo keyed by the context":
+                    r.site(g, x, "memo keyed by the cap")
+                    path = attr_path(x.value) if isinstance(x, ast.Subscript) else attr_path(x.func.value) \
+                        if isinstance(x, ast.Call) and isinstance(x.func, ast.Attribute) else None
+                    if path is None or not path.startswith("self.") or path.count(".") != 1 or g.cls is not ci:
+                        ctx.note("C41.9: %s reads a memo (%s) keyed by %s; who else fills it is not decided" % (
+                            short(g), src(g, x), what))
+                    else:
+                        memos.setdefault(path.split(".")[1], []).append((g, x))
+            r.count(pv.states)
+            seen = set()
+            for (g, x, msg) in pv.lost:
+                k = (g.qual, getattr(x, "lineno", 0), msg)
+                if k in seen:
+                    continue
+                seen.add(k)
+                r.violation(g, g.loc(x), msg + ": a request that carries a read-only or verify cap can be answered with "
+                            "the live node that was made from the write cap of the same object, and every write gate "
+                            "asks that node")
+        # who else fills the memos that create_from_cap answers from
+        fam = [ci] + [c for c in ci.mro() if c is not ci] + idx.subclasses(ci)
+        for attr in sorted(memos):
+            readers = {g.qual for (g, _x) in memos[attr]}
+            n_fill = 0
+            for (f, x, kind) in _self_attr_uses(fam, attr):
+                if kind != "fill":
+                    continue
+                n_fill += 1
+                if f.qual in readers:
+                    continue                    # judged by the walk (same key discipline as the lookup)
+                _judge_fill(r, idx, f, x, attr, top_flags, top_kinds)
+            r.site("fills of self.%s: %d" % (attr, n_fill))
+            for g in idx.funcs.values():
+                if g.cls is not None and g.cls in fam:
+                    continue
+                for x in func_own_nodes(g, into_lambda=True):
+                    tgt = x.value if isinstance(x, ast.Subscript) and isinstance(x.ctx, (ast.Store, ast.Del)) else \
+                        x.func.value if isinstance(x, ast.Call) and isinstance(x.func, ast.Attribute) \
+                        and x.func.attr in _C18.Provenance.MUTATORS else None
+                    if isinstance(tgt, ast.Attribute) and tgt.attr == attr:
+                        r.violation(g, g.loc(x), "%s fills the node memo %s from outside %s: create_from_cap answers "
+                                    "from it without knowing which cap the stored node was made from" % (
+                                        short(g), src(g, tgt), ci.name))
+
+
+def _judge_fill(r, idx, f, x, attr, top_flags, top_kinds, _depth=0):
+    """A store into the node memo outside the function that reads it: the key must keep the cap of the call
+    (when f is one of the analysed entry points), or the own cap of the node being stored (<node>.get_uri() /
+    <node>.get_cap())."""
+    pv = _CapProvenance(idx, "the cap the stored node was made from")
+    if isinstance(x, ast.Subscript):
+        if isinstance(x.ctx, ast.Del):
+            return
+        key = x.slice
+        val = None
+        for st in func_own_nodes(f, into_lambda=True):
+            if isinstance(st, ast.Assign) and any(t is x for t in st.targets):
+                val = st.value
+    else:
+        if x.func.attr not in _STORE_CALLS:
+            return                              # pop / clear / move_to_end ..: forgets or reorders
+        if x.func.attr == "update" or len(x.args) < 2:
+            r.violation(f, f.loc(x), "%s fills the node memo self.%s in bulk (%s): the keys cannot be told" % (
+                short(f), attr, src(f, x)))
+            return
+        key, val = x.args[0], x.args[1]
+    flags = set(top_flags.get(f.qual, ()))
+    if isinstance(val, ast.Name):
+        flags.add(val.id)
+    env = pv.top_env(f, flags, top_kinds.get(f.qual))
+    if isinstance(key, ast.Name) and key.id in f.params and key.id not in env.defs and f.cls is not None \
+            and f.parent is None and not isinstance(f.node, ast.Lambda) and _depth < 3:
+        # a helper that files a node under the key it is handed: its callers (methods of the class, on self) answer
+        sites = [(g, c) for m in f.cls.methods.values() for g in _all_funcs_of(m)
+                 for c in calls_in_func(g, f.name, into_lambda=True)
+                 if isinstance(c.func, ast.Attribute) and attr_path(c.func.value) == "self"]
+        refs = [nd for (g, nd) in get_callgraph(idx).refs_named(f.name) if g.cls is f.cls]
+        if sites and not refs:
+            for (g, c) in sites:
+                b = pv.bind(f, c, True)
+                k2 = b.get(key.id) if b is not None else None
+                v2 = b.get(val.id) if b is not None and isinstance(val, ast.Name) else None
+                fl2 = set(top_flags.get(g.qual, ()))
+                if isinstance(v2, ast.Name):
+                    fl2.add(v2.id)
+                if k2 is None or not pv.ctxdep(pv.top_env(g, fl2, top_kinds.get(g.qual)), k2):
+                    r.violation(g, g.loc(c), "%s files a node in the memo self.%s (through %s), which create_from_cap "
+                                "answers from, under the key %s: that key does not keep the cap the node was made from "
+                                "apart from the other caps of the same object" % (
+                                    short(g), attr, f.name, src(g, k2) if k2 is not None else "?"))
+            return
+    if not pv.ctxdep(env, key):
+        r.violation(f, f.loc(x), "%s stores a node in the memo self.%s, which create_from_cap answers from, under the key "
+                    "%s: that key does not keep the cap the node was made from apart from the other caps of the same "
+                    "object" % (short(f), attr, src(f, key)))
